@@ -286,7 +286,8 @@ _MODULE_CONSTANTS = {}
 def module_constants(repo, module):
     """names bound exactly once, at module level, by a plain assignment (a default that names
     one of them means the same object whenever the function is called)"""
-    key = (id(repo), module)
+    _MODULE_CONSTANTS = repo.__dict__.setdefault('_module_constants', {})
+    key = module
     if key not in _MODULE_CONSTANTS:
         tree = repo.modules[module]['tree']
         stores = {}
